@@ -206,12 +206,61 @@ def run(ctx):
                  ctx.construct(ph, extra='unfinished sub-workflows only'),
                  'recursion into sub-workflows is not limited to unfinished '
                  'ones', ctx.loc(ph))
+    # upward propagation: a paused sub-workflow pauses its parent; a resumed
+    # one resumes it unless another child is still paused
+    au = prog.func(TH + '._on_action_update')
+    acfg = ctx.cfg(au)
+    pu = U.calls_in(acfg, 'pause_workflow')
+    ru = U.calls_in(acfg, 'resume_workflow')
+    if not pu or not ru:
+        raise AnalysisError('C10.R3: _on_action_update lost pause/resume')
+    for n, c in pu:
+        r3.check(U.guarded(acfg, n, 'states.is_paused(action_ex.state)',
+                           True) and len(U.guard_atoms(acfg, n)) <= 2,
+                 ctx.construct(au, extra='paused child pauses the parent'),
+                 'the parent workflow is not paused exactly when the '
+                 'updated child execution is PAUSED', ctx.loc(au, c))
+    for n, c in ru:
+        loops = [x for x in acfg.nodes if x.kind == 'for' and
+                 U.phas(x.ast.iter, '___.task_executions')]
+        stop = [x for x in acfg.nodes if x.kind == 'stmt' and
+                isinstance(x.ast, ast.Return) and
+                U.guarded(acfg, x, 'states.is_paused(__t.state)', True) and
+                U.guarded(acfg, x, 'states.is_running(action_ex.state)',
+                          True)]
+        r3.check(U.guarded(acfg, n, 'states.is_running(action_ex.state)',
+                           True) and bool(loops) and bool(stop) and
+                 any(acfg.dominates(lp, n) for lp in loops),
+                 ctx.construct(au, extra='resumed child resumes the parent '
+                               'unless a sibling is paused'),
+                 'the parent workflow is not resumed exactly when the child '
+                 'is RUNNING again and no other task is paused',
+                 ctx.loc(au, c))
     shared.subworkflow_recursion_unrestricted(
         ctx, r3, 'mistral.engine.workflow_handler.pause_workflow',
         'pause_workflow')
     shared.subworkflow_recursion_unrestricted(
         ctx, r3, 'mistral.engine.workflow_handler.resume_workflow',
         'resume_workflow')
+    tu = prog.func(TASK + '.update')
+    ucfg = ctx.cfg(tu)
+    ss = [n for n, c in U.calls_in(ucfg, 'set_state')]
+    if not ss:
+        raise AnalysisError('C10.R3: Task.update no longer sets the state')
+    keep = [x for x in ucfg.nodes if x.kind == 'stmt' and
+            isinstance(x.ast, ast.Return) and
+            U.guarded(ucfg, x, 'state == states.RUNNING', True) and
+            U.guarded(ucfg, x, 'states.PAUSED in child_states', True)]
+    cs = [x for x in own_nodes(tu.node) if isinstance(x, ast.Assign) and
+          dotted(x.targets[0]) == 'child_states']
+    r3.check(bool(keep) and all(
+        not (U.guarded(ucfg, n, 'state == states.RUNNING', True) and
+             U.guarded(ucfg, n, 'states.PAUSED in child_states', True))
+        for n in ss) and len(cs) == 1 and
+        U.phas(cs[0].value, 'self.task_ex.executions'),
+        ctx.construct(tu, extra='stays paused while a child is paused'),
+        'a task can go back to RUNNING while one of its child executions '
+        'is still PAUSED', ctx.loc(tu))
     for name in ('pause', 'resume'):
         f = prog.func(WF + '.' + name)
         cfg = ctx.cfg(f)
